@@ -11,6 +11,7 @@
     labelling, the refusals, and that the Hankel slicing of the pencil method produces the two shifted
     Hankel matrices the factorisation theorem is about.  The model is run against pyerrors on every case.
 -/
+import PV.Proofs.DetBridge
 import PV.Props.C16Alg
 import PV.Proofs.C16Lemmas
 
@@ -266,5 +267,45 @@ theorem c16_projected_defined (content : List (Option (List (List α)))) (vs : L
     ((projectedList content vs)[t]? = some none) ↔ (content.getD t none = none ∨ vs.getD t none = none) := by
   simp only [projectedList, List.getElem?_map, List.getElem?_range ht, Option.map_some, Option.some.injEq]
   cases content.getD t none <;> cases vs.getD t none <;> simp
+
+
+/-! ### the model's determinant is the determinant -/
+
+section det_bridge
+open PV.DetBridge Matrix BigOperators PV.RealS
+
+/-- the Laplace-expansion determinant of the model equals Mathlib's `Matrix.det` for every square list matrix -/
+theorem c16_det_is_det (M : List (List ℝ)) (n : Nat) (h : ShapedR M n n) : PV.det M = (toMR M n n).det :=
+  det_model_eq M n h
+
+/-- **C16 (the assignment found by the sorting is the true one, on the model).**  For a square, non-singular reference
+    and vectors `v_k = c_k · ref_{σ k}` (exact data: every solved vector is a non-zero multiple of one reference
+    vector), the score the model computes for an assignment `τ` is non-zero exactly for `τ = σ`. -/
+theorem c16_sort_score_model (n : Nat) (ref : List (List ℝ)) (href : ShapedR ref n n) (hdet : (toMR ref n n).det ≠ 0)
+    (c : Fin n → ℝ) (hc : ∀ k, c k ≠ 0) (σ τ : Equiv.Perm (Fin n)) :
+    permScore ref (List.ofFn (fun k : Fin n => (ref.getD (σ k) []).map (c k * ·))) (List.ofFn (fun k : Fin n => ((τ k : Fin n) : Nat))) ≠ 0
+      ↔ τ = σ := by
+  have hperm : ∀ k, k < n → (List.ofFn (fun k : Fin n => ((τ k : Fin n) : Nat))).getD k 0 < n := by
+    intro k hk
+    simp [List.getD_eq_getElem?_getD, hk]
+  have hvecs : ∀ k, k < n → ((List.ofFn (fun k : Fin n => (ref.getD (σ k) []).map (c k * ·))).getD k []).length = n := by
+    intro k hk
+    have hs : ((σ ⟨k, hk⟩ : Fin n) : Nat) < ref.length := by rw [href.1]; exact (σ ⟨k, hk⟩).2
+    simp [List.getD_eq_getElem?_getD, hk, hs, href.2 _ (List.getElem_mem hs)]
+  rw [permScore_eq ref _ _ n href hperm hvecs, ← c16_sort_score_alg (toMR ref n n) hdet c hc σ τ]
+  have : ∀ k : Fin n,
+      ((toMR ref n n).updateRow ⟨(List.ofFn (fun k : Fin n => ((τ k : Fin n) : Nat))).getD k 0, hperm k k.2⟩
+        (fun j => ((List.ofFn (fun k : Fin n => (ref.getD (σ k) []).map (c k * ·))).getD k []).getD j 0))
+      = (toMR ref n n).updateRow (τ k) (c k • toMR ref n n (σ k)) := by
+    intro k
+    have hs : ((σ k : Fin n) : Nat) < ref.length := by rw [href.1]; exact (σ k).2
+    congr 1
+    · apply Fin.ext; simp [List.getD_eq_getElem?_getD]
+    · funext j
+      have hj : (j : Nat) < (ref[(σ k : Nat)]).length := by rw [href.2 _ (List.getElem_mem hs)]; exact j.2
+      simp [toMR, List.getD_eq_getElem?_getD, hs, hj]
+  simp only [this]
+
+end det_bridge
 
 end PV
